@@ -11,7 +11,7 @@ TRUSTED_COMMON = [
 PROPS = {
     'C13': dict(
         tests=['TestC13'],
-        monitor_tags={1310, 1311, 1312, 1313, 1314},
+        monitor_tags={1310, 1311, 1312, 1313, 1314, 1315, 1316},
         panic_is_violation={1301, 1302, 1304, 1306, 1305},
         rule='every UDP payload length 0..1600 (thorough 0..4000) plus random lengths up to 65507 with byte patterns that make '
              'one\'s-complement sums cross 0xFFFF; oversize payloads (length-field wrap); all protocols; decoders on truncations at every '
